@@ -10,6 +10,17 @@ class P(framework.Prop):
             "(delete/insert/duplicate/swap/replace), token soup, lexical edge cases (numbers at the i32 edge, '-0', quoted forms, "
             "unterminated delimiters, non-ASCII), all compliance expressions; non-trivial = accepted sentence")
 
+    def spec_line(self, case):
+        """the reference parser decides sentencehood and the tree"""
+        if case.startswith("parse "):
+            return "refparse " + case[len("parse "):]
+        return None
+
+    def spec_equal(self, sobs, iobs):
+        if sobs.startswith("ERR parse") and iobs.startswith("ERR parse"):
+            return True
+        return framework.canon(sobs) == framework.canon(iobs)
+
     def cases(self, rng, tier):
         out = []
         N = 3000 if tier == "quick" else 150000
